@@ -66,17 +66,18 @@ def run_property(prop, tier, seed):
         cases = P.generate(tier_eff, rng)
         core.assign_ids(cases)
         t1 = time.time()
+        core.attach_glob(cvh, cases, prop)
         impl = core.run_harness(cvh, cases, prop)
         t2 = time.time()
         model = core.run_model(cases, prop)
         log("in-process: %d cases, harness %.0fs, model %.0fs" % (len(cases), t2 - t1, time.time() - t2))
-        st = core.judge(rep, cases, impl, model, known, getattr(P, "nontrivial", None), spec_mode=getattr(P, "SPEC_MODE", None))
+        st = core.judge(rep, cases, impl, model, known, getattr(P, "nontrivial", None), spec_mode=getattr(P, "SPEC_MODE", None), project=getattr(P, "project", None))
         if hasattr(P, "process"):
             t3 = time.time()
             for label, pcases, pimpl in P.process(tier_eff, rng, cicada):
                 pmodel = core.run_model(pcases, prop + label)
                 rep.count("process:" + label, len(pcases))
-                core.judge(rep, pcases, pimpl, pmodel, known, getattr(P, "nontrivial", None))
+                core.judge(rep, pcases, pimpl, pmodel, known, getattr(P, "nontrivial", None), project=getattr(P, "project", None))
             log("process-level: %.0fs" % (time.time() - t3))
         if hasattr(P, "post"):
             P.post(rep)
